@@ -1,0 +1,17 @@
+//go:build verif
+
+package protocol
+
+import "net"
+
+// Export for the external verification harness (property C03). Add-only; compiled only with -tags verif.
+
+// VerifC03SendQueueRemaining returns the number of free slots in the send queue of a session
+// connection, or -1 if c is not a *Session.
+func VerifC03SendQueueRemaining(c net.Conn) int {
+	s, ok := c.(*Session)
+	if !ok {
+		return -1
+	}
+	return s.sendQueue.Remaining()
+}
